@@ -140,17 +140,18 @@ type stepInfo struct {
 
 // run is one process lifetime chain on one sim world (until a crash).
 type run struct {
-	job   *Job
-	out   *Out
-	path  string
-	init  *sim.Image
-	rec   *sim.Recorder
-	fs    *sim.FS
-	meta  *sim.Meta
-	w     *wal.WAL
-	pool  *valpool.Pool
-	mc    *metrics.AtomicCollector
-	steps []stepInfo
+	job        *Job
+	out        *Out
+	path       string
+	init       *sim.Image
+	rec        *sim.Recorder
+	fs         *sim.FS
+	meta       *sim.Meta
+	w          *wal.WAL
+	pool       *valpool.Pool
+	mc         *metrics.AtomicCollector
+	steps      []stepInfo
+	lastFailed *Step // the StoreLogs call that failed last (a "retry" step submits its indexes again)
 	// shared across the whole job tree
 	sh *shared
 	// nCreatesSeen: fs.Creates already reported
@@ -463,6 +464,19 @@ func (r *run) doStep(s Step) {
 		r.doStep(Step{Op: "open"})
 		return
 	}
+	if s.Op == "retry" {
+		// the caller's reaction to a failed append: the same indexes, the same sizes, submitted again (new contents)
+		if r.lastFailed == nil {
+			s = Step{Op: "store", Rel: true, N: 1, Sz: []int{1}}
+		} else {
+			f := *r.lastFailed
+			s = Step{Op: "store", First: f.First, Idxs: f.Idxs, Sz: f.Sz, Look: f.Look, Bytes: f.Bytes}
+			for range f.Cids {
+				s.Cids = append(s.Cids, r.sh.nextCid)
+				r.sh.nextCid++
+			}
+		}
+	}
 	wasRel := s.Rel
 	s = r.resolve(s)
 	si := stepInfo{markBefore: r.mark(), inv: r.rec.Len()}
@@ -501,6 +515,12 @@ func (r *run) doStep(s Step) {
 				nb += r.encodedLen(lg)
 			}
 			err := r.w.StoreLogs(logs)
+			if err != nil {
+				sc := s
+				r.lastFailed = &sc
+			} else {
+				r.lastFailed = nil
+			}
 			if r.job.CheckFormat {
 				if r.submitted == nil {
 					r.submitted = map[uint64][][]byte{}
